@@ -16,15 +16,16 @@ LEVEL_TEXT = ("Coq theorems over an executable model of the labelled dense matri
               "one-element index list; group metadata are a true contiguous partition after group_<axis> and 'grouped => partition' "
               "is an invariant of every history of all 12 operation kinds; generic form = axis-specific form and the dispatch/metadata-reset "
               "tables regenerated from the source by ast satisfy the model's tables; mutating = non-mutating counterpart; two refutations "
-              "(one-axis insert/incorp/concat of square-taxa matrices, label loss in DenseSquareTaxaTraitMatrix) and one regression witness "
-              "about the former code of a repaired defect (scalar-index insert on an inner axis); the kernel expressions of the current "
+              "(one-axis insert/incorp/concat of square-taxa matrices, label loss in DenseSquareTaxaTraitMatrix) and two regression witnesses "
+              "about the former code of repaired defects (scalar-index insert on an inner axis; 0-d array index let through the scalar test); the kernel expressions of the current "
               "source (get_axis range test and modulo, stop index and numpy.unique unpacking of group_<axis>, is_grouped_<axis>, default sort keys "
               "with the group array as primary key, label-argument precedence of adjoin/insert/append/incorp, scalar-index wrap, the whole metadata "
               "pipeline of the two masked genotyping protocols, block slices of the square adjoin/append) are regenerated on every run "
               "(Gen/C03_Kernel.v), proved equal to the model's (reflexivity) and the partition/dispatch theorems are restated about them; "
               "sessions: a history's continuation depends only on the state reached; the form of an index does not matter: a bare integer index of "
-              "delete/remove/insert/incorp is the one-element index list (and a 0-d array index of insert/incorp, which the source's guard lets through "
-              "unwrapped, is refuted: C03_zero_dim_insert_refuted). "
+              "delete/remove/insert/incorp is the one-element index list; the test of the source's scalar-index wrap is translated as a boolean expression over "
+              "the form of the index (Python int, numpy integer scalar, ndarray with its ndim and dtype, other) and proved to fire on exactly the scalar forms, "
+              "0-d integer arrays included (C03_kernel_insert_scalar; the former test is refuted: C03_old_zero_dim_insert_refuted). "
               "The model is tied to the code by evaluating whole operation histories inside Coq against the implementation's state after "
               "every step, plus an independent entity-tracing predicate")
 LEVEL_NOTE = ("trusted: Coq kernel + vm_compute; the hand-written model of numpy.take/delete/insert/append/concatenate/lexsort/unique "
@@ -51,7 +52,7 @@ RULE = ("case = (class, initial matrix given by entity ids per axis + which labe
         "numpy integer scalar (int8..int64, uint8..uint64, every width that holds the value and the axis length) or a 0-d array; list as tuple / range / "
         "list of numpy scalars of mixed widths / ndarray of a non-default dtype; numpy bool mask as Python list or tuple of bools (delete/remove) - and the "
         "model and the specification ignore the encoding (expected: the behaviour of the plain value); plus a systematic sweep, 15 short histories per "
-        "(class, labelled axis kind) (x6 thorough): every scalar width on insert|incorp and delete|remove, every list encoding and dtype, ranges that "
+        "(class, labelled axis kind) (x6 thorough): every scalar width on insert|incorp and delete|remove as numpy scalar and as 0-d array, every list encoding and dtype, ranges that "
         "differ from the slice of the same bounds (descending to 0, crossing 0, negative, step 2), every dtype / tuple / range / scalar list on "
         "select and reorder, all axes >= 2 entities and blocks of 2 so that an unwrapped scalar, a mask read as integers or a narrow cast is visible; "
         "not given because numpy itself rejects them: unsigned index arrays of more than one element and Python sequences of bools for numpy.insert, "
@@ -927,12 +928,9 @@ def deviation(C, S, T, op, main):
                 return "sqtt-drop", U
     if C["square"] and kind == "taxa" and k in ("insert", "incorp", "concat"):
         return "sq-insert", None
-    if zero_dim_inner(C, op):
-        return "0d-insert", None
     return None, None
 
-TAGS = {"sqtt-drop": "C03-squaretaxatrait-drops-labels", "sq-insert": "C03-square-insert-one-axis",
-        "0d-insert": "C03-zero-dim-index-insert-moveaxis"}
+TAGS = {"sqtt-drop": "C03-squaretaxatrait-drops-labels", "sq-insert": "C03-square-insert-one-axis"}
 
 def pred(case, out):
     """the property stated on the implementation's snapshots, by entity tracing with plain list operations"""
@@ -1250,18 +1248,10 @@ def rebase_like_impl(C, T, op):
         return U
     return T
 
-def zero_dim_inner(C, op):
-    """insert / incorp with a 0-d array index on an axis kind whose (first) array axis is not axis 0: known finding
-    C03-zero-dim-index-insert-moveaxis (the scalar-index guard `isinstance(obj, (int, numpy.integer))` does not see a 0-d array)"""
-    if op.get("k") not in ("insert", "incorp"): return False
-    o = op.get("obj") or {}
-    ax = kind_axes(C, op.get("ax"))
-    return o.get("t") == "int" and str(o.get("e", "")).startswith("0d:") and bool(ax) and min(ax) > 0
 def terminal_tag(C, op):
     if op["k"] in ("genotype", "copy"): return None
     kind = op["ax"]
     if C["square"] and kind == "taxa" and op["k"] in ("insert", "incorp", "concat"): return "sq-insert"
-    if zero_dim_inner(C, op): return "0d-insert"
     return None
 def is_terminal(C, op):
     return terminal_tag(C, op) is not None
@@ -1468,7 +1458,8 @@ def gen_enc_case(rng, clsname, kind, seg, part=0, nparts=1):
     """systematic sweep of index-argument ENCODINGS for one (class, axis kind): every axis has >= 2 entities and inserted blocks
     have 2, so an index that reaches numpy in another form than the plain Python value (a scalar not wrapped into a list moves
     axis 0 of the block, a narrow dtype overflows, a mask read as integers) changes cells, shape or raises.
-    scalar: insert/incorp then delete/remove with the index as a numpy integer scalar of EVERY width (int8..uint64) and as a 0-d array;
+    scalar: insert/incorp then delete/remove with the index as a numpy integer scalar of EVERY width (int8..uint64) and as a 0-d array
+            of every width (both for insertion and deletion);
     lists : the same operations with tuple / range / list of numpy scalars / ndarray of every fitting dtype / numpy mask /
             Python list and tuple of bools;
     take  : select / reorder with ndarray of every dtype / tuple / range / list of numpy scalars.
@@ -1518,9 +1509,11 @@ def gen_enc_case(rng, clsname, kind, seg, part=0, nparts=1):
             grow(sc(dt, n_() + 1), 2)
             if n_() > 1: push(("delete", "remove"), obj=sc(dts[(i + 3) % 8], n_()))
             if n_() > 1: push(("delete", "remove"), obj=sc(dts[(i + 5) % 8], n_(), "0d" if i % 2 else "np"))
-        if not sq and part % 2 == 0:
-            # a 0-d array index: like the int on the outermost axis; on an inner axis the known finding C03-zero-dim-index-insert-moveaxis (last step)
-            grow(sc(r.choice(INT_DTYPES), n_() + 1, "0d"), 2)
+            if not sq:
+                # a 0-d integer array (of every width over the parts) is a scalar index like the int; the history goes on after it
+                # (repaired finding C03-zero-dim-index-insert-moveaxis: it used to reach numpy.insert unwrapped and moved axis 0 of the block)
+                grow(sc(dts[(i + 1) % 8], n_() + 1, "0d"), 2)
+                if n_() > 1: push(("delete", "remove"), obj=sc(dts[(i + 2) % 8], n_()))
     elif seg == "lists":
         kinds = ["tuple", "range", "nplist", "mask", "lmask", "ltuple"] + ["dt:" + d for d in INT_DTYPES] + ["range", "range"]
         kinds = kinds[part::nparts]; r.shuffle(kinds)
@@ -1845,10 +1838,6 @@ def emit_case(case, out):
                 # from the state before the copy; a copy that raises or alters the state shows up here / in the next step
                 if "exc" in rec["main"] or diff_snap(prev, rec["main"]): return "false"
                 continue
-            if op["k"] != "genotype" and zero_dim_inner(Cc, op):
-                # known finding C03-zero-dim-index-insert-moveaxis: the model's insert wraps every scalar index; the history is
-                # evaluated in Coq up to this step, the step itself is judged by the predicate (and by the finding's witness)
-                break
             hops.append(_hop(Cc, tab, op, prev))
             if "exc" in rec["main"]:
                 raised = True; break
